@@ -45,6 +45,9 @@ CHECKS = {
  "C12": dict(level="fault_enumeration", engine="E1+E2", technique="fault enumeration: every single-byte damage at every offset of either header page (several byte values; all 255 on defined bytes in the thorough tier), zeroing, multi-byte overwrites and torn tails, after every commit count 0..N; oracle = dump equals the state of the intact header",
    text="For files after 0..N commits of generated histories every enumerated damage is applied to the newest or the older header page of a copy; opening must succeed and the full dump must equal the state recorded by the intact header whenever a byte the format defines changed (either state otherwise). Single faults are enumerated exhaustively for the offsets and values listed in the evidence.",
    note="Other header and all data pages intact; single-process open.", ref="4/C12"),
+ "C13": dict(level="exploration", engine="E3+E5", technique="generated multi-process orchestrations (start offsets, hold times, forced orderings through LD_PRELOAD gates at libc boundaries); oracle = disjoint open intervals from monotonic timestamps, successor sees predecessor's marker, every process exits 0",
+   text="2-3 worker processes open the same path (existing or not yet created), commit a marker and close, under generated start offsets / hold times and with processes parked by the shim at open64, after open64, the creator's writes, fsync, mmap64 or close; all gate pairs x release orders for two processes, sampled for three. Open intervals must be pairwise disjoint, a later opener must see every earlier marker, and no open may fail or panic instead of waiting.",
+   note="flock is a raw syscall: its effect is observed, not the call; timing decides which interleaving is produced, not the verdict.", ref="4/C13"),
  "C15": dict(level="exploration", engine="E1+E2", technique="differential testing against golden files written by the pinned tree (4 page sizes x current/legacy header) with generated continuation histories; refusal + unchanged bytes for every mismatching page size",
    text="Golden files produced by the pinned code are opened by the current code: dump must equal the recorded dump, the independent parser (pinned layout) must accept them, generated further transactions must commit and match the model, and opening with any other page size must be refused without touching the file.",
    note="Legacy-header files are synthesised from the pinned OldMeta layout.", ref="4/C15"),
@@ -88,6 +91,7 @@ def main():
             {"name": "E1", "path": "harness/src/{model,ops,interp,shapes}.rs", "serves_properties": ["C01","C03","C05","C06","C07","C08","C10","C15","C16"], "kind_free_text": "reference model + operation grammar (proptest strategies) + history interpreter with oracles"},
             {"name": "E3", "path": "shim/io_shim.c + harness/src/{crash,worker}.rs", "serves_properties": ["C02","C11","C13"], "kind_free_text": "LD_PRELOAD I/O shim (write log, fault injection, gates), crash-image enumerator, worker processes"},
             {"name": "E4", "path": "harness/src/sched.rs + /repo/src/verif_hooks.rs", "serves_properties": ["C04","C09"], "kind_free_text": "cooperative schedule controller over real threads (bounded-preemption DFS by re-execution, random, PCT), driven by cfg-guarded yield points in jammdb"},
+            {"name": "E5", "path": "harness/src/checks/c13.rs", "serves_properties": ["C13"], "kind_free_text": "multi-process orchestrator (worker processes + shim gates + monotonic timestamps)"},
             {"name": "E2", "path": "harness/src/fsck.rs", "serves_properties": ["C01","C02","C05","C06","C10","C11","C12","C15","C16"], "kind_free_text": "independent file parser / page accountant written from the pinned layout"},
         ],
         "checks": checks,
